@@ -1,2 +1,877 @@
-/* ds_htable.h - TODO */
-static void ds_htable_case(vh_rng_t *rng) { (void)rng; vh_inconclusive("not-implemented"); }
+/* ds_htable.h - the typed hash-table fronts (szvp, strvp, asvp, dict, vpvp, vpstr) vs. an
+ * association array indexed by key number.
+ *
+ * A case fixes one front and a universe of U distinct keys; key number i has one concrete
+ * representation per front (size_t / socket / pointer: offset + i*stride; strings: prefix + hex(i) +
+ * suffix).  String keys (strvp, dict) are presented in a fresh random upper/lower-case spelling at
+ * every call: both fronts hash with ares_htable_hash_FNV1a_casecmp and compare with ares_strcaseeq,
+ * and ares_htable_dict.h documents the key as case-insensitive, so the model's key equality for these
+ * two fronts is ASCII case-insensitive equality; the other fronts compare exactly.
+ * Values carry a unique id per insert (pointer into dsh_vals[] or the string "v<id>").
+ *
+ * Oracle: after every operation the touched key is looked up (get and get_direct) and must map to the
+ * latest value inserted for it, or be absent; num_keys equals the number of live keys; every N
+ * operations and at the end ALL keys of the universe are looked up; keys() (asvp, dict) returns each
+ * live key exactly once; val_free (and key_free for vpvp) ran exactly once for every value (key
+ * reference) that left the table through replace/remove/destroy and never for a claimed value.
+ * Large cases grow one table from the initial 16 buckets past 4096 live keys, shrink it by removal
+ * to a handful, and grow it again.
+ */
+
+typedef enum {
+  DSH_SZVP = 0,
+  DSH_STRVP,
+  DSH_ASVP,
+  DSH_DICT,
+  DSH_VPVP,
+  DSH_VPSTR,
+  DSH_NFRONTS
+} dsh_front_t;
+
+static const char *const dsh_front_name[] = { "szvp", "strvp", "asvp", "dict", "vpvp", "vpstr" };
+
+#define DSH_MAXKEYS 6400
+#define DSH_MAXVALS 60000
+static uint32_t dsh_vals[DSH_MAXVALS];  /* dsh_vals[i] == i; &dsh_vals[i] is the value pointer of id i */
+static uint8_t  dsh_freed[DSH_MAXVALS]; /* val_free calls seen per value id */
+static uint8_t  dsh_expect_freed[DSH_MAXVALS];
+static uint32_t dsh_next_val;
+static int      dsh_live[DSH_MAXKEYS];      /* model: key number -> present? */
+static uint32_t dsh_cur[DSH_MAXKEYS];       /* model: key number -> current value id */
+static uint16_t dsh_kins[DSH_MAXKEYS];      /* vpvp: successful inserts per key */
+static uint16_t dsh_kfreed[DSH_MAXKEYS];    /* vpvp: key_free calls per key */
+static uint32_t dsh_enum_stamp[DSH_MAXKEYS];
+static uint32_t dsh_stamp;
+static size_t   dsh_nlive;
+static size_t   dsh_universe;
+static size_t   dsh_maxlive;
+
+static dsh_front_t dsh_front;
+static void       *dsh_tab;
+static int         dsh_has_valfree, dsh_has_keyfree;
+static uint64_t    dsh_off, dsh_stride;
+static char        dsh_prefix[48], dsh_suffix[48];
+static int         dsh_empty_key0; /* strvp only: key number 0 is the empty string */
+static vh_rng_t   *dsh_rng;
+static int         dsh_foreign_free; /* val_free/key_free called with something never handed in */
+
+static void dsh_val_free(void *p)
+{
+  uint32_t *v = (uint32_t *)p;
+  if (p == NULL) {
+    /* strvp_claim() detaches the value by storing NULL in the entry and then removes the entry, so
+     * val_free sees NULL; no value of ours is NULL, so this releases nothing the model tracks */
+    vh_count("htable_val_free_null");
+    return;
+  }
+  if (v < dsh_vals || v >= dsh_vals + DSH_MAXVALS) {
+    dsh_foreign_free++;
+    return;
+  }
+  if (dsh_freed[*v] < 255) {
+    dsh_freed[*v]++;
+  }
+}
+
+static void dsh_key_free(void *p)
+{
+  uint64_t k = (uint64_t)(uintptr_t)p;
+  uint64_t i;
+  if (k < dsh_off || (k - dsh_off) % dsh_stride != 0 || (i = (k - dsh_off) / dsh_stride) >= dsh_universe) {
+    dsh_foreign_free++;
+    return;
+  }
+  if (dsh_kfreed[i] < 65535) {
+    dsh_kfreed[i]++;
+  }
+}
+
+/* ---- key representations ---- */
+static size_t dsh_key_sz(size_t i)
+{
+  return (size_t)(dsh_off + (uint64_t)i * dsh_stride);
+}
+
+static ares_socket_t dsh_key_sock(size_t i)
+{
+  return (ares_socket_t)(dsh_off + (uint64_t)i * dsh_stride);
+}
+
+static void *dsh_key_ptr(size_t i)
+{
+  return (void *)(uintptr_t)(dsh_off + (uint64_t)i * dsh_stride);
+}
+
+/* string key of key number i in a random spelling */
+static const char *dsh_key_str(size_t i, int canonical)
+{
+  static char buf[160];
+  size_t      k;
+  if (dsh_empty_key0 && i == 0) {
+    buf[0] = 0;
+    return buf;
+  }
+  snprintf(buf, sizeof(buf), "%s%zx%s", dsh_prefix, i, dsh_suffix);
+  if (!canonical) {
+    for (k = 0; buf[k]; k++) {
+      if (buf[k] >= 'a' && buf[k] <= 'z' && vh_chance(dsh_rng, 1, 2)) {
+        buf[k] = (char)(buf[k] - 'a' + 'A');
+      }
+    }
+  }
+  return buf;
+}
+
+/* key number of a string the table handed back, or -1 */
+static long dsh_str_to_key(const char *s)
+{
+  size_t        pl = strlen(dsh_prefix), sl = strlen(dsh_suffix), n, k;
+  char          low[160];
+  char          num[160];
+  char         *end = NULL;
+  unsigned long v;
+  if (s == NULL) {
+    return -1;
+  }
+  n = strlen(s);
+  if (n >= sizeof(low) || n <= pl + sl) {
+    return -1;
+  }
+  for (k = 0; k < n; k++) {
+    low[k] = (s[k] >= 'A' && s[k] <= 'Z') ? (char)(s[k] - 'A' + 'a') : s[k];
+  }
+  low[n] = 0;
+  if (memcmp(low, dsh_prefix, pl) != 0 || memcmp(low + n - sl, dsh_suffix, sl) != 0) {
+    return -1;
+  }
+  memcpy(num, low + pl, n - pl - sl);
+  num[n - pl - sl] = 0;
+  v                = strtoul(num, &end, 16);
+  if (end == num || *end != 0 || v >= dsh_universe) {
+    return -1;
+  }
+  /* must be exactly the canonical spelling up to case (no leading zeros, signs, ...) */
+  if (strcmp(dsh_key_str((size_t)v, 1), low) != 0) {
+    return -1;
+  }
+  return (long)v;
+}
+
+static const char *dsh_val_str(uint32_t id)
+{
+  static char buf[32];
+  snprintf(buf, sizeof(buf), "v%u", id);
+  return buf;
+}
+
+static long dsh_str_to_val(const char *s)
+{
+  char *end = NULL;
+  long  v;
+  if (s == NULL || s[0] != 'v') {
+    return -1;
+  }
+  v = strtol(s + 1, &end, 10);
+  if (end == s + 1 || *end != 0) {
+    return -1;
+  }
+  return v;
+}
+
+static long dsh_ptr_to_val(const void *p)
+{
+  const uint32_t *v = (const uint32_t *)p;
+  if (v < dsh_vals || v >= dsh_vals + DSH_MAXVALS) {
+    return -1;
+  }
+  return (long)(v - dsh_vals);
+}
+
+/* ---- front dispatch ---- */
+static int dsh_create(void)
+{
+  ares_htable_szvp_val_free_t vf = dsh_has_valfree ? dsh_val_free : NULL;
+  switch (dsh_front) {
+    case DSH_SZVP:
+      dsh_tab = ares_htable_szvp_create(vf);
+      break;
+    case DSH_STRVP:
+      dsh_tab = ares_htable_strvp_create(vf);
+      break;
+    case DSH_ASVP:
+      dsh_tab = ares_htable_asvp_create(vf);
+      break;
+    case DSH_DICT:
+      dsh_tab = ares_htable_dict_create();
+      break;
+    case DSH_VPVP:
+      dsh_tab = ares_htable_vpvp_create(dsh_has_keyfree ? dsh_key_free : NULL, vf);
+      break;
+    case DSH_VPSTR:
+      dsh_tab = ares_htable_vpstr_create();
+      break;
+    default:
+      dsh_tab = NULL;
+  }
+  return dsh_tab != NULL;
+}
+
+static void dsh_destroy(void)
+{
+  switch (dsh_front) {
+    case DSH_SZVP:
+      ares_htable_szvp_destroy((ares_htable_szvp_t *)dsh_tab);
+      break;
+    case DSH_STRVP:
+      ares_htable_strvp_destroy((ares_htable_strvp_t *)dsh_tab);
+      break;
+    case DSH_ASVP:
+      ares_htable_asvp_destroy((ares_htable_asvp_t *)dsh_tab);
+      break;
+    case DSH_DICT:
+      ares_htable_dict_destroy((ares_htable_dict_t *)dsh_tab);
+      break;
+    case DSH_VPVP:
+      ares_htable_vpvp_destroy((ares_htable_vpvp_t *)dsh_tab);
+      break;
+    case DSH_VPSTR:
+      ares_htable_vpstr_destroy((ares_htable_vpstr_t *)dsh_tab);
+      break;
+    default:
+      break;
+  }
+  dsh_tab = NULL;
+}
+
+static ares_bool_t dsh_insert(size_t i, uint32_t vid)
+{
+  switch (dsh_front) {
+    case DSH_SZVP:
+      return ares_htable_szvp_insert((ares_htable_szvp_t *)dsh_tab, dsh_key_sz(i), &dsh_vals[vid]);
+    case DSH_STRVP:
+      return ares_htable_strvp_insert((ares_htable_strvp_t *)dsh_tab, dsh_key_str(i, 0), &dsh_vals[vid]);
+    case DSH_ASVP:
+      return ares_htable_asvp_insert((ares_htable_asvp_t *)dsh_tab, dsh_key_sock(i), &dsh_vals[vid]);
+    case DSH_DICT:
+      return ares_htable_dict_insert((ares_htable_dict_t *)dsh_tab, dsh_key_str(i, 0), dsh_val_str(vid));
+    case DSH_VPVP:
+      return ares_htable_vpvp_insert((ares_htable_vpvp_t *)dsh_tab, dsh_key_ptr(i), &dsh_vals[vid]);
+    case DSH_VPSTR:
+      return ares_htable_vpstr_insert((ares_htable_vpstr_t *)dsh_tab, dsh_key_ptr(i), dsh_val_str(vid));
+    default:
+      return ARES_FALSE;
+  }
+}
+
+/* get(): returns found flag, *vid = value id or -1 (unrecognisable), *raw_null = value pointer was NULL */
+static ares_bool_t dsh_get(size_t i, long *vid, int *raw_null)
+{
+  void       *vp = (void *)&dsh_stamp; /* poison: get() must overwrite it */
+  const char *vs = (const char *)&dsh_stamp;
+  ares_bool_t f;
+  switch (dsh_front) {
+    case DSH_SZVP:
+      f = ares_htable_szvp_get((const ares_htable_szvp_t *)dsh_tab, dsh_key_sz(i), &vp);
+      break;
+    case DSH_STRVP:
+      f = ares_htable_strvp_get((const ares_htable_strvp_t *)dsh_tab, dsh_key_str(i, 0), &vp);
+      break;
+    case DSH_ASVP:
+      f = ares_htable_asvp_get((const ares_htable_asvp_t *)dsh_tab, dsh_key_sock(i), &vp);
+      break;
+    case DSH_DICT:
+      f = ares_htable_dict_get((const ares_htable_dict_t *)dsh_tab, dsh_key_str(i, 0), &vs);
+      *raw_null = vs == NULL;
+      *vid      = dsh_str_to_val(vs);
+      return f;
+    case DSH_VPVP:
+      f = ares_htable_vpvp_get((const ares_htable_vpvp_t *)dsh_tab, dsh_key_ptr(i), &vp);
+      break;
+    case DSH_VPSTR:
+      f = ares_htable_vpstr_get((const ares_htable_vpstr_t *)dsh_tab, dsh_key_ptr(i), &vs);
+      *raw_null = vs == NULL;
+      *vid      = dsh_str_to_val(vs);
+      return f;
+    default:
+      f = ARES_FALSE;
+  }
+  *raw_null = vp == NULL;
+  *vid      = dsh_ptr_to_val(vp);
+  return f;
+}
+
+static long dsh_get_direct(size_t i, int *raw_null)
+{
+  const void *vp = NULL;
+  const char *vs = NULL;
+  switch (dsh_front) {
+    case DSH_SZVP:
+      vp = ares_htable_szvp_get_direct((const ares_htable_szvp_t *)dsh_tab, dsh_key_sz(i));
+      break;
+    case DSH_STRVP:
+      vp = ares_htable_strvp_get_direct((const ares_htable_strvp_t *)dsh_tab, dsh_key_str(i, 0));
+      break;
+    case DSH_ASVP:
+      vp = ares_htable_asvp_get_direct((const ares_htable_asvp_t *)dsh_tab, dsh_key_sock(i));
+      break;
+    case DSH_DICT:
+      vs        = ares_htable_dict_get_direct((const ares_htable_dict_t *)dsh_tab, dsh_key_str(i, 0));
+      *raw_null = vs == NULL;
+      return dsh_str_to_val(vs);
+    case DSH_VPVP:
+      vp = ares_htable_vpvp_get_direct((const ares_htable_vpvp_t *)dsh_tab, dsh_key_ptr(i));
+      break;
+    case DSH_VPSTR:
+      vs        = ares_htable_vpstr_get_direct((const ares_htable_vpstr_t *)dsh_tab, dsh_key_ptr(i));
+      *raw_null = vs == NULL;
+      return dsh_str_to_val(vs);
+    default:
+      break;
+  }
+  *raw_null = vp == NULL;
+  return dsh_ptr_to_val(vp);
+}
+
+static ares_bool_t dsh_remove(size_t i)
+{
+  switch (dsh_front) {
+    case DSH_SZVP:
+      return ares_htable_szvp_remove((ares_htable_szvp_t *)dsh_tab, dsh_key_sz(i));
+    case DSH_STRVP:
+      return ares_htable_strvp_remove((ares_htable_strvp_t *)dsh_tab, dsh_key_str(i, 0));
+    case DSH_ASVP:
+      return ares_htable_asvp_remove((ares_htable_asvp_t *)dsh_tab, dsh_key_sock(i));
+    case DSH_DICT:
+      return ares_htable_dict_remove((ares_htable_dict_t *)dsh_tab, dsh_key_str(i, 0));
+    case DSH_VPVP:
+      return ares_htable_vpvp_remove((ares_htable_vpvp_t *)dsh_tab, dsh_key_ptr(i));
+    case DSH_VPSTR:
+      return ares_htable_vpstr_remove((ares_htable_vpstr_t *)dsh_tab, dsh_key_ptr(i));
+    default:
+      return ARES_FALSE;
+  }
+}
+
+static size_t dsh_num_keys(void)
+{
+  switch (dsh_front) {
+    case DSH_SZVP:
+      return ares_htable_szvp_num_keys((const ares_htable_szvp_t *)dsh_tab);
+    case DSH_STRVP:
+      return ares_htable_strvp_num_keys((const ares_htable_strvp_t *)dsh_tab);
+    case DSH_ASVP:
+      return ares_htable_asvp_num_keys((const ares_htable_asvp_t *)dsh_tab);
+    case DSH_DICT:
+      return ares_htable_dict_num_keys((const ares_htable_dict_t *)dsh_tab);
+    case DSH_VPVP:
+      return ares_htable_vpvp_num_keys((const ares_htable_vpvp_t *)dsh_tab);
+    case DSH_VPSTR:
+      return ares_htable_vpstr_num_keys((const ares_htable_vpstr_t *)dsh_tab);
+    default:
+      return 0;
+  }
+}
+
+/* violation with the front as the site part of the key */
+static void dsh_viol(const char *rule, const char *fmt, ...)
+{
+  char    key[96];
+  char    buf[1024];
+  va_list ap;
+  va_start(ap, fmt);
+  vsnprintf(buf, sizeof(buf), fmt, ap);
+  va_end(ap);
+  snprintf(key, sizeof(key), "ds:htable:%s:%s", rule, dsh_front_name[dsh_front]);
+  vh_violation(key, "%s", buf);
+}
+
+/* look key i up both ways and compare with the model */
+static int dsh_check_key(size_t i, const char *what)
+{
+  long        vid = -1, dvid;
+  int         rn = 0, drn = 0;
+  ares_bool_t f  = dsh_get(i, &vid, &rn);
+  vh_count("htable_lookup");
+  if (dsh_live[i]) {
+    if (!f) {
+      dsh_viol("lost-key", "%s: key #%zu is live (value v%u) but get() does not find it (live keys %zu)", what, i, dsh_cur[i],
+               dsh_nlive);
+      return 0;
+    }
+    if (vid != (long)dsh_cur[i]) {
+      dsh_viol("stale-value", "%s: key #%zu maps to value id %ld, latest inserted is %u", what, i, vid, dsh_cur[i]);
+      return 0;
+    }
+  } else {
+    if (f) {
+      dsh_viol("phantom-key", "%s: key #%zu was removed/never inserted but get() finds value id %ld", what, i, vid);
+      return 0;
+    }
+    if (!rn) {
+      dsh_viol("get-miss-output", "%s: get() of absent key #%zu did not set the output value to NULL", what, i);
+      return 0;
+    }
+  }
+  dvid = dsh_get_direct(i, &drn);
+  if (dsh_live[i] ? dvid != (long)dsh_cur[i] : !drn) {
+    dsh_viol("get-direct", "%s: get_direct of key #%zu gives value id %ld (null=%d), model %s v%u", what, i, dvid, drn,
+             dsh_live[i] ? "live" : "absent", dsh_cur[i]);
+    return 0;
+  }
+  return 1;
+}
+
+static int dsh_check_counts(const char *what)
+{
+  if (dsh_num_keys() != dsh_nlive) {
+    dsh_viol("num-keys", "%s: num_keys=%zu model=%zu", what, dsh_num_keys(), dsh_nlive);
+    return 0;
+  }
+  if (dsh_foreign_free) {
+    dsh_viol("free-foreign", "%s: a free callback received a pointer that was never handed to the table", what);
+    return 0;
+  }
+  return 1;
+}
+
+static int dsh_check_freed(const char *what)
+{
+  size_t i;
+  if (memcmp(dsh_freed, dsh_expect_freed, dsh_next_val) != 0) {
+    for (i = 0; i < dsh_next_val; i++) {
+      if (dsh_freed[i] != dsh_expect_freed[i]) {
+        dsh_viol("val-free", "%s: value id %zu freed %u times, model %u", what, i, dsh_freed[i], dsh_expect_freed[i]);
+        return 0;
+      }
+    }
+  }
+  if (dsh_front == DSH_VPVP && dsh_has_keyfree) {
+    for (i = 0; i < dsh_universe; i++) {
+      unsigned want = (unsigned)dsh_kins[i] - (dsh_live[i] ? 1U : 0U);
+      if (dsh_kfreed[i] != want) {
+        dsh_viol("key-free", "%s: key #%zu: key_free ran %u times after %u inserts (live=%d), model %u", what, i,
+                 dsh_kfreed[i], dsh_kins[i], dsh_live[i], want);
+        return 0;
+      }
+    }
+  }
+  return 1;
+}
+
+/* enumerate keys (asvp, dict) and compare with the live set */
+static int dsh_check_enum(const char *what)
+{
+  size_t num = 12345, k;
+  if (dsh_front != DSH_ASVP && dsh_front != DSH_DICT) {
+    return 1;
+  }
+  vh_count("htable_enumerate");
+  dsh_stamp++;
+  if (dsh_front == DSH_ASVP) {
+    ares_socket_t *ks = ares_htable_asvp_keys((const ares_htable_asvp_t *)dsh_tab, &num);
+    if (num != dsh_nlive || (dsh_nlive && ks == NULL)) {
+      dsh_viol("keys-count", "%s: keys() returned %p with %zu entries, model has %zu live keys", what, (void *)ks, num,
+               dsh_nlive);
+      ares_free(ks);
+      return 0;
+    }
+    for (k = 0; k < num; k++) {
+      uint64_t v = (uint64_t)(int64_t)ks[k] - dsh_off;
+      uint64_t i = v / dsh_stride;
+      if ((uint64_t)(int64_t)ks[k] < dsh_off || v % dsh_stride != 0 || i >= dsh_universe || !dsh_live[i]) {
+        dsh_viol("keys-foreign", "%s: keys() lists socket %ld which is not a live key", what, (long)ks[k]);
+        ares_free(ks);
+        return 0;
+      }
+      if (dsh_enum_stamp[i] == dsh_stamp) {
+        dsh_viol("keys-duplicate", "%s: keys() lists key #%llu twice", what, (unsigned long long)i);
+        ares_free(ks);
+        return 0;
+      }
+      dsh_enum_stamp[i] = dsh_stamp;
+    }
+    ares_free(ks);
+  } else {
+    char **ks = ares_htable_dict_keys((const ares_htable_dict_t *)dsh_tab, &num);
+    int    ok = 1;
+    if (num != dsh_nlive || (dsh_nlive && ks == NULL)) {
+      dsh_viol("keys-count", "%s: keys() returned %p with %zu entries, model has %zu live keys", what, (void *)ks, num,
+               dsh_nlive);
+      ok = 0;
+    }
+    for (k = 0; ok && k < num; k++) {
+      long i = dsh_str_to_key(ks[k]);
+      if (i < 0 || !dsh_live[i]) {
+        dsh_viol("keys-foreign", "%s: keys() lists '%s' which is not a live key", what, ks[k] ? ks[k] : "(null)");
+        ok = 0;
+      } else if (dsh_enum_stamp[i] == dsh_stamp) {
+        dsh_viol("keys-duplicate", "%s: keys() lists key #%ld twice", what, i);
+        ok = 0;
+      } else {
+        dsh_enum_stamp[i] = dsh_stamp;
+      }
+    }
+    if (ks != NULL) {
+      ares_free_array(ks, num, ares_free);
+    }
+    if (!ok) {
+      return 0;
+    }
+  }
+  /* count matched and there were no duplicates or foreigners, so every live key was listed */
+  return 1;
+}
+
+static int dsh_check_all(const char *what)
+{
+  size_t i;
+  vh_count("htable_full_check");
+  for (i = 0; i < dsh_universe; i++) {
+    if (!dsh_check_key(i, what)) {
+      return 0;
+    }
+  }
+  return dsh_check_counts(what) && dsh_check_freed(what) && dsh_check_enum(what);
+}
+
+enum {
+  DSH_INSERT_NEW = 1,
+  DSH_INSERT_REPLACE,
+  DSH_GET_LIVE,
+  DSH_GET_ABSENT,
+  DSH_REMOVE_LIVE,
+  DSH_REMOVE_ABSENT,
+  DSH_CLAIM,
+  DSH_ENUM,
+  DSH_FULL,
+  DSH_DESTROY
+};
+
+/* one live / one absent key number, or -1 */
+static uint32_t dsh_livelist[DSH_MAXKEYS]; /* dense list of live key numbers */
+static uint32_t dsh_livepos[DSH_MAXKEYS];
+
+static void dsh_model_set(size_t i, uint32_t vid)
+{
+  if (!dsh_live[i]) {
+    dsh_live[i]               = 1;
+    dsh_livepos[i]            = (uint32_t)dsh_nlive;
+    dsh_livelist[dsh_nlive++] = (uint32_t)i;
+  }
+  dsh_cur[i] = vid;
+  if (dsh_nlive > dsh_maxlive) {
+    dsh_maxlive = dsh_nlive;
+  }
+}
+
+static void dsh_model_del(size_t i)
+{
+  uint32_t last               = dsh_livelist[dsh_nlive - 1];
+  dsh_livelist[dsh_livepos[i]] = last;
+  dsh_livepos[last]            = dsh_livepos[i];
+  dsh_nlive--;
+  dsh_live[i] = 0;
+}
+
+static long dsh_pick_absent(vh_rng_t *rng)
+{
+  int tries;
+  if (dsh_nlive >= dsh_universe) {
+    return -1;
+  }
+  for (tries = 0; tries < 64; tries++) {
+    size_t i = vh_below(rng, (uint32_t)dsh_universe);
+    if (!dsh_live[i]) {
+      return (long)i;
+    }
+  }
+  {
+    size_t i;
+    for (i = 0; i < dsh_universe; i++) {
+      if (!dsh_live[i]) {
+        return (long)i;
+      }
+    }
+  }
+  return -1;
+}
+
+static void ds_htable_case(vh_rng_t *rng)
+{
+  int     large = vh_chance(rng, 1, 48);
+  int     nops;
+  int     phase = 0; /* large cases: 0 grow past 4096, 1 shrink to a handful, 2 grow again, 3 mixed */
+  size_t  target_hi = 0, target_lo = 0, target_hi2 = 0;
+  int     full_every;
+  int     i;
+  char    what[96];
+  vh_sb_t sb = { 0 };
+  size_t  k;
+
+  dsh_rng   = rng;
+  dsh_front = (dsh_front_t)vh_below(rng, DSH_NFRONTS);
+  if (large) {
+    dsh_universe = (size_t)vh_range(rng, 4300, DSH_MAXKEYS);
+    target_hi    = (size_t)vh_range(rng, 4100, (int)dsh_universe - 100);
+    target_lo    = (size_t)vh_range(rng, 0, 40);
+    target_hi2   = (size_t)vh_range(rng, 50, 1200);
+    nops         = 40000; /* bounded by the phases, see below */
+    full_every   = 2048;
+  } else {
+    static const int us[] = { 3, 12, 13, 14, 24, 25, 26, 48, 49, 50, 100, 200, 400 };
+    dsh_universe          = (size_t)us[vh_below(rng, sizeof(us) / sizeof(us[0]))];
+    nops                  = vh_chance(rng, 1, 6) ? vh_range(rng, 300, 1500) : vh_range(rng, 6, 150);
+    full_every            = dsh_universe <= 50 ? 8 : 64;
+  }
+  dsh_has_valfree = vh_chance(rng, 4, 5);
+  dsh_has_keyfree = vh_chance(rng, 2, 3);
+  /* key layout: consecutive, even, multiples of the initial / a later table size, or scattered */
+  {
+    static const uint64_t strides[] = { 1, 1, 2, 16, 64, 4096, 0x10001, 0x9e3779b1ULL };
+    dsh_stride                      = strides[vh_below(rng, sizeof(strides) / sizeof(strides[0]))];
+    dsh_off                         = 4096 + (vh_chance(rng, 1, 2) ? vh_below(rng, 100000) : 0);
+    if (dsh_front == DSH_SZVP && vh_chance(rng, 1, 3)) {
+      dsh_off = vh_rand64(rng) >> 1;
+    }
+    if (dsh_front == DSH_SZVP && vh_chance(rng, 1, 8)) {
+      dsh_off = 0; /* key 0 is a legal size_t key */
+    }
+    if (dsh_front == DSH_ASVP && dsh_stride > 4096) {
+      dsh_stride = 4096; /* keep sockets inside int */
+    }
+  }
+  {
+    static const char *const pre[] = { "", "k", "host-", "x.y.z-", "averyveryverylongprefix-with-many-letters-" };
+    static const char *const suf[] = { "", "z", ".example.com", ".a.b.c.d.e.f.g.h.i.j.k.l.m.n.o.p", "-q" };
+    snprintf(dsh_prefix, sizeof(dsh_prefix), "%s", pre[vh_below(rng, 5)]);
+    snprintf(dsh_suffix, sizeof(dsh_suffix), "%s", suf[vh_below(rng, 5)]);
+    dsh_empty_key0 = dsh_front == DSH_STRVP && vh_chance(rng, 1, 4);
+  }
+
+  memset(dsh_freed, 0, sizeof(dsh_freed));
+  memset(dsh_expect_freed, 0, sizeof(dsh_expect_freed));
+  memset(dsh_live, 0, sizeof(dsh_live));
+  memset(dsh_kins, 0, sizeof(dsh_kins));
+  memset(dsh_kfreed, 0, sizeof(dsh_kfreed));
+  if (dsh_vals[DSH_MAXVALS - 1] != DSH_MAXVALS - 1) {
+    for (k = 0; k < DSH_MAXVALS; k++) {
+      dsh_vals[k] = (uint32_t)k;
+    }
+  }
+  dsh_next_val     = 0;
+  dsh_nlive        = 0;
+  dsh_maxlive      = 0;
+  dsh_foreign_free = 0;
+
+  if (!dsh_create()) {
+    vh_inconclusive("oom");
+    return;
+  }
+  if (vh_want_sample()) {
+    vh_sb_printf(&sb, "{\"container\":\"htable_%s\",\"universe\":%zu,\"large\":%d,\"stride\":%llu,\"ops\":[",
+                 dsh_front_name[dsh_front], dsh_universe, large, (unsigned long long)dsh_stride);
+  }
+
+  for (i = 0; i < nops && !vh_case_viol; i++) {
+    int  op;
+    int  r = vh_range(rng, 0, 99);
+    int  ins_w, rm_w;
+    long key;
+
+    if (large) {
+      /* phase switching by size */
+      if (phase == 0 && dsh_nlive >= target_hi) {
+        phase = 1;
+      } else if (phase == 1 && dsh_nlive <= target_lo) {
+        phase = 2;
+      } else if (phase == 2 && dsh_nlive >= target_hi2) {
+        phase = 3;
+        nops  = i + vh_range(rng, 50, 600);
+      }
+      ins_w = (phase == 0 || phase == 2) ? 80 : phase == 1 ? 4 : 35;
+      rm_w  = (phase == 0 || phase == 2) ? 4 : phase == 1 ? 80 : 35;
+    } else {
+      ins_w = 40;
+      rm_w  = 28;
+    }
+    if (r < ins_w) {
+      op = (dsh_nlive && vh_chance(rng, 1, large ? 10 : 4)) ? DSH_INSERT_REPLACE : DSH_INSERT_NEW;
+    } else if (r < ins_w + rm_w) {
+      op = vh_chance(rng, 1, 8) ? DSH_REMOVE_ABSENT : (dsh_front == DSH_STRVP && vh_chance(rng, 1, 3)) ? DSH_CLAIM
+                                                                                                       : DSH_REMOVE_LIVE;
+    } else if (r < 97) {
+      op = vh_chance(rng, 2, 3) ? DSH_GET_LIVE : DSH_GET_ABSENT;
+    } else {
+      op = (large && !vh_chance(rng, 1, 20)) ? DSH_GET_LIVE : vh_chance(rng, 1, 2) ? DSH_ENUM : DSH_FULL;
+    }
+    /* redirect when the wanted kind of key does not exist */
+    if ((op == DSH_INSERT_REPLACE || op == DSH_GET_LIVE || op == DSH_REMOVE_LIVE || op == DSH_CLAIM) && dsh_nlive == 0) {
+      op = DSH_INSERT_NEW;
+    }
+    if ((op == DSH_INSERT_NEW || op == DSH_GET_ABSENT || op == DSH_REMOVE_ABSENT) && dsh_nlive >= dsh_universe) {
+      op = DSH_REMOVE_LIVE;
+    }
+    if (dsh_next_val >= DSH_MAXVALS - 2) {
+      break;
+    }
+    OP(op);
+    if (sb.b && i < 40) {
+      vh_sb_printf(&sb, "%s%d", i ? "," : "", op);
+    }
+    key = -1;
+
+    switch (op) {
+      case DSH_INSERT_NEW:
+      case DSH_INSERT_REPLACE:
+        {
+          uint32_t vid = dsh_next_val;
+          key = op == DSH_INSERT_NEW ? dsh_pick_absent(rng) : (long)dsh_livelist[vh_below(rng, (uint32_t)dsh_nlive)];
+          snprintf(what, sizeof(what), "op#%d %s key#%ld n=%zu", i, op == DSH_INSERT_NEW ? "insert" : "insert-replace", key,
+                   dsh_nlive);
+          if (!dsh_insert((size_t)key, vid)) {
+            /* only out-of-memory may refuse a well-formed insert; treat as undecided */
+            vh_inconclusive("insert-refused");
+            goto teardown;
+          }
+          dsh_next_val++;
+          if (dsh_live[key] && dsh_has_valfree && dsh_front != DSH_DICT && dsh_front != DSH_VPSTR) {
+            dsh_expect_freed[dsh_cur[key]]++;
+          }
+          if (dsh_live[key]) {
+            ds_removals++; /* the old value leaves the table */
+          }
+          dsh_kins[key]++;
+          dsh_model_set((size_t)key, vid);
+          vh_count(op == DSH_INSERT_NEW ? "htable_insert_new" : "htable_insert_replace");
+          break;
+        }
+      case DSH_GET_LIVE:
+        key = (long)dsh_livelist[vh_below(rng, (uint32_t)dsh_nlive)];
+        snprintf(what, sizeof(what), "op#%d get key#%ld n=%zu", i, key, dsh_nlive);
+        break;
+      case DSH_GET_ABSENT:
+        key = dsh_pick_absent(rng);
+        snprintf(what, sizeof(what), "op#%d get-absent key#%ld n=%zu", i, key, dsh_nlive);
+        break;
+      case DSH_REMOVE_LIVE:
+      case DSH_REMOVE_ABSENT:
+        {
+          ares_bool_t rv;
+          key = op == DSH_REMOVE_LIVE ? (long)dsh_livelist[vh_below(rng, (uint32_t)dsh_nlive)] : dsh_pick_absent(rng);
+          snprintf(what, sizeof(what), "op#%d remove%s key#%ld n=%zu", i, op == DSH_REMOVE_LIVE ? "" : "-absent", key,
+                   dsh_nlive);
+          rv = dsh_remove((size_t)key);
+          if (op == DSH_REMOVE_LIVE) {
+            if (!rv) {
+              dsh_viol("remove-missed", "%s: remove() of a live key returned false", what);
+              break;
+            }
+            if (dsh_has_valfree && dsh_front != DSH_DICT && dsh_front != DSH_VPSTR) {
+              dsh_expect_freed[dsh_cur[key]]++;
+            }
+            dsh_model_del((size_t)key);
+            ds_removals++;
+            vh_count("htable_remove");
+          } else if (rv) {
+            dsh_viol("remove-phantom", "%s: remove() of an absent key returned true", what);
+          }
+          break;
+        }
+      case DSH_CLAIM:
+        {
+          void *v;
+          int   absent = vh_chance(rng, 1, 6) && dsh_nlive < dsh_universe;
+          key          = absent ? dsh_pick_absent(rng) : (long)dsh_livelist[vh_below(rng, (uint32_t)dsh_nlive)];
+          snprintf(what, sizeof(what), "op#%d claim%s key#%ld n=%zu", i, absent ? "-absent" : "", key, dsh_nlive);
+          v = ares_htable_strvp_claim((ares_htable_strvp_t *)dsh_tab, dsh_key_str((size_t)key, 0));
+          if (absent) {
+            if (v != NULL) {
+              dsh_viol("claim-phantom", "%s: claim() of an absent key returned a value", what);
+            }
+            break;
+          }
+          if (dsh_ptr_to_val(v) != (long)dsh_cur[key]) {
+            dsh_viol("claim-value", "%s: claim() returned value id %ld, model %u", what, dsh_ptr_to_val(v), dsh_cur[key]);
+            break;
+          }
+          /* claimed: ownership back with the caller, val_free must not run */
+          dsh_model_del((size_t)key);
+          ds_removals++;
+          vh_count("htable_claim");
+          break;
+        }
+      case DSH_ENUM:
+        snprintf(what, sizeof(what), "op#%d keys() n=%zu", i, dsh_nlive);
+        dsh_check_enum(what);
+        break;
+      case DSH_FULL:
+        snprintf(what, sizeof(what), "op#%d full-check n=%zu", i, dsh_nlive);
+        dsh_check_all(what);
+        break;
+      default:
+        break;
+    }
+    if (vh_case_viol) {
+      break;
+    }
+    if (key >= 0) {
+      dsh_check_key((size_t)key, what);
+    }
+    if (!vh_case_viol) {
+      dsh_check_counts(what);
+    }
+    if (!vh_case_viol && (!large || (i & 63) == 0)) {
+      dsh_check_freed(what);
+    }
+    if (!vh_case_viol && i && (i % full_every) == 0) {
+      dsh_check_all(what);
+    }
+    /* sampling schedule only: the insert that makes 3*2^k+1 live keys is where a table that started
+     * with 16 buckets and grows at 75% load doubles; look at every key right after it */
+    if (!vh_case_viol && op == DSH_INSERT_NEW && dsh_nlive >= 13 && ((dsh_nlive - 1) % 3) == 0) {
+      size_t q = (dsh_nlive - 1) / 3;
+      if ((q & (q - 1)) == 0 && q >= 4) {
+        vh_count("htable_growth_points");
+        dsh_check_all(what);
+      }
+    }
+  }
+
+teardown:
+  OP(DSH_DESTROY);
+  if (!vh_case_viol) {
+    dsh_check_all("final");
+  }
+  if (vh_case_viol) {
+    /* the table is suspect; abandon it (LeakSanitizer will still see what is unreachable from it) */
+    ds_abandon(dsh_tab);
+    dsh_tab = NULL;
+  } else {
+    for (k = 0; k < dsh_nlive; k++) {
+      size_t key = dsh_livelist[k];
+      if (dsh_has_valfree && dsh_front != DSH_DICT && dsh_front != DSH_VPSTR) {
+        dsh_expect_freed[dsh_cur[key]]++;
+      }
+    }
+    dsh_destroy();
+    for (k = 0; k < dsh_universe; k++) {
+      dsh_live[k] = 0; /* every key reference has been released now */
+    }
+    dsh_nlive = 0;
+    dsh_check_freed("destroy");
+    if (dsh_foreign_free) {
+      dsh_viol("free-foreign", "destroy: a free callback received a pointer that was never handed to the table");
+    }
+  }
+  if (large) {
+    vh_count("htable_large_cases");
+    if (dsh_maxlive > 4096) {
+      vh_count("htable_cases_past_4096_keys");
+    }
+  }
+  if (sb.b) {
+    vh_sb_printf(&sb, "],\"nops\":%d,\"max_live\":%zu}", ds_nops, dsh_maxlive);
+    vh_sample(sb.b);
+    free(sb.b);
+  }
+}
